@@ -44,7 +44,7 @@
       {"L": int, "circular": bool, "taxon": "bacteria"|"fungi", "seed": int,
        "header": {"id", "name", "description", "annotations": {...}, "reference": bool},
        "source": bool,
-       "genes": [{"name", "loc": {"parts", "strand"}, "codon_start": 1|2|3, "fuzzy": [bool, bool],
+       "genes": [{"name", "loc": {"parts", "strand", "operator"?: "order"}, "codon_start": 1|2|3, "fuzzy": [bool, bool],
                   "ident": "locus_tag"|"protein_id"|"gene", "protein_id": str|None, "gene": str|None,
                   "gene_feature": bool, "translation": "given"|"computed", "transl_table": str|None,
                   "quals": {key: [values]}, "added_notes": [str],
@@ -111,7 +111,10 @@ def shifted(loc: dict, codon_start: int) -> dict:
             parts[0][1] -= drop
         else:
             parts[0][0] += drop
-    return {"parts": parts, "strand": loc["strand"]}
+    out = {"parts": parts, "strand": loc["strand"]}
+    if loc.get("operator"):
+        out["operator"] = loc["operator"]
+    return out
 
 
 def loc_len(loc: dict) -> int:
@@ -189,7 +192,7 @@ def to_secmet_location(loc: dict, fuzzy: tuple = (False, False)) -> Any:
         parts.append(FeatureLocation(spos, epos, loc.get("strand")))
     if len(parts) == 1:
         return parts[0]
-    return CompoundLocation(parts)
+    return CompoundLocation(parts, operator=loc.get("operator") or "join")
 
 
 def to_bio_location(loc: dict, fuzzy: tuple = (False, False)) -> Any:
@@ -204,7 +207,7 @@ def to_bio_location(loc: dict, fuzzy: tuple = (False, False)) -> Any:
         parts.append(SimpleLocation(spos, epos, loc.get("strand")))
     if len(parts) == 1:
         return parts[0]
-    return CompoundLocation(parts)
+    return CompoundLocation(parts, operator=loc.get("operator") or "join")
 
 
 def _qualifier_items(qualifiers: dict) -> list:
@@ -806,6 +809,12 @@ def spec_classes(spec: dict) -> list:
         classes.append("subregion_equal_coordinates")
     if any(_is_span(m["loc"]) for m in spec.get("misc") or []):
         classes.append("misc_span")
+    if any(m["loc"].get("operator") == "order" for m in spec.get("misc") or []):
+        classes.append("misc_order_location")
+    if any(g["loc"].get("operator") == "order" for g in genes):
+        classes.append("gene_order_location")
+    if any(g["loc"].get("operator") == "order" and g.get("codon_start", 1) != 1 for g in genes):
+        classes.append("gene_order_location_codon_start")
     if spec["header"].get("reference"):
         classes.append("header_reference")
     if spec.get("family") == "many_areas":
@@ -855,7 +864,7 @@ DESCRIPTIONS = ["SMCOG1000: ABC transporter ATP-binding protein", "SMCOG1127: co
                 "EC 2.3.1.41; acyltransferase", "PF00109"]
 PLAIN_DESCRIPTIONS = ["AMP-binding", "predicted lanthipeptide", "TIGR03731", "PF00109", "PKS_KS", "halogenase",
                       "EC 2.3.1.41; acyltransferase", "KS (Score 123.4; E-value 1.2e-30)"]
-MISC_TYPES = ["misc_feature", "regulatory", "tRNA", "repeat_region", "misc_RNA", "RBS", "mobile_element"]
+MISC_TYPES = ["misc_feature", "regulatory", "tRNA", "repeat_region", "misc_RNA", "RBS", "mobile_element", "primer_bind"]
 DETAIL_KEYS = ["evidence", "score.raw", "my-key", "Ab1", "x2", "reference-id", "confidence_level"]
 
 
@@ -1009,6 +1018,8 @@ def _gene_details(draw, gene: dict, gindex: int, circular: bool, modular_bias: b
         key = repr(loc["parts"]) + str(loc["strand"])
     seen.add(key)
     gene["codon_start"] = codon_start
+    if len(loc["parts"]) > 1 and draw(_one_in(4)):
+        loc["operator"] = "order"       # order(a..b,c..d): NCBI writes it where the relation of the parts is unknown
     if codon_start == 1 and draw(_one_in(6)):
         gene["explicit_codon_start"] = True
     gene["fuzzy"] = [False, False]
@@ -1337,6 +1348,19 @@ def record_specs(draw, *, max_len: int = 5000, max_genes: int = 8, max_protoclus
     size_hint = draw(st.sampled_from([30, 60, 120, max(30, length // 8)]))
     genes = draw(gen.gene_layout(length, circular, max_genes=max_genes, size_hint=size_hint,
                                  gap_choices=(0, 10, length // 10)))
+    if not draw(_one_in(8)):
+        # genes with equal (start, length) - gene_layout's antisense twins and same-start accidents - always trip the
+        # open finding C10-equal-coordinates-renumbered; they are kept as a class of their own (1 record in 8)
+        kept, keys = [], set()
+        for gene in genes:
+            key = (min(p[0] for p in gene["loc"]["parts"]), loc_len(gene["loc"]))
+            if key in keys and not gen.is_span(gene["loc"]):
+                continue
+            keys.add(key)
+            kept.append(gene)
+        genes = kept
+        for index, gene in enumerate(genes):
+            gene["name"] = f"g{index}"
     modular_bias = draw(st.booleans())
     notes_bias = draw(st.sampled_from([0, 1, 1]))
     seen = {repr(gene["loc"]["parts"]) + str(gene["loc"]["strand"]) for gene in genes}
@@ -1345,13 +1369,15 @@ def record_specs(draw, *, max_len: int = 5000, max_genes: int = 8, max_protoclus
         draw(_gene_details(gene, gindex, circular, modular_bias, notes_bias, seen))
     anchors = tuple(x for g in genes for p in g["loc"]["parts"] for x in p)
     misc = []
-    for _ in range(draw(st.sampled_from([0, 0, 1, 2]))):
+    for _ in range(draw(st.sampled_from([0, 1, 1, 2]))):
         loc = draw(gen.any_location(length, allow_span=circular))
         quals = {"note": [draw(_text(4))]} if draw(st.booleans()) else {}
         if draw(_one_in(4)):
             quals["db_xref"] = ["CDD:123456"]
-        misc.append({"type": draw(st.sampled_from(MISC_TYPES)), "loc": {"parts": loc["parts"], "strand": loc["strand"]},
-                     "quals": quals})
+        misc_loc = {"parts": loc["parts"], "strand": loc["strand"]}
+        if len(loc["parts"]) > 1 and draw(_one_in(2)):
+            misc_loc["operator"] = "order"
+        misc.append({"type": draw(st.sampled_from(MISC_TYPES)), "loc": misc_loc, "quals": quals})
     n_protos = draw(st.integers(0, max_protoclusters))
     n_subs = draw(st.sampled_from([0, 0, 1, 2, 3][:max_subregions + 2]))
     if n_protos + n_subs < min_areas:
